@@ -41,6 +41,7 @@ def plan(tier):
                    (byzcfg, 3, 1 if quick else 8)]
     p.scenarios = ['lock_unlock', 'relock_and_pol_proposal', 'locked_without_proposal', 'stale_polka_must_not_unlock',
                    'lock_survives_restart', 'skip_round_on_precommits']
+    p.rotate_wal = 1   # WAL rotations before most crashes and at random points (invisible to the specification)
     return p
 
 
